@@ -163,6 +163,10 @@ func genTxProc(r *core.Rng, nstmts int) *txProc {
 		}
 	}
 	for k := 0; k < nstmts; k++ {
+		if r.P(25) {
+			// statements that run other program text but change nothing: the transaction goes on as if they were not there
+			p.Units = append(p.Units, []string{"EXECUTE 'PRINT ''executed'';';", "SOURCE `../noop.sql`;", "EXECUTE 'VAR @e%d := %s; DISPOSE @e%d;' USING 7, 7;", "IF 1 = 1 THEN EXECUTE 'SELECT 1 INTO @nowhere FROM `untouched` WHERE 1 = 0;'; END IF;"}[r.Intn(2)])
+		}
 		switch r.Intn(12) {
 		case 0:
 			p.Units = append(p.Units, dumpUnit(st, "c"), "COMMIT;")
